@@ -664,6 +664,83 @@ def gen_unit(seed, idx, size=1.0, features=None):
 import re
 _tok = re.compile(r'"(?:[^"\\\n]|\\.)*"|\'(?:[^\'\\\n]|\\.)*\'|/\*.*?\*/|//[^\n]*|[A-Za-z_][A-Za-z_0-9]*|\d+|\s+|>>>=?|<<=?|>>=?|[-+*/%&|^!=<>]=|&&|\|\||\+\+|--|->|.', re.S)
 
+# the shortest members of each lexical class (empty comment, empty string ...): what a slice or index
+# computed from "the delimiters are there" trips over
+TINY = ['/**/', '/***/', '/* */', '/** */', '/**@*/', '/**@a*/', '/**\n*/', '/** @author */', '""', "''", '//', '//\n', '0', '@', '@A', '"\\"', '/*/', '/**']
+
+
+def shrink_token(t, rng):
+    """a shorter token of the same lexical class, or a truncated one"""
+    if t.startswith('/*') and t.endswith('*/') and len(t) >= 4:
+        return rng.choice(['/**/', '/***/', t[:3] + t[-2:], t[:2] + t[-2:], t[:max(2, len(t) // 2)] + '*/', t[:-1], t[:-2]])
+    if len(t) >= 2 and t[0] == t[-1] and t[0] in '"\'':
+        return rng.choice([t[0] * 2, t[:-1], t[0] + t[-1:], t[:max(1, len(t) // 2)] + t[0]])
+    if len(t) > 1:
+        a = rng.randrange(len(t))
+        b = rng.randrange(a, len(t) + 1)
+        return t[:a] + t[b:]
+    return ''
+
+
+def tiny_variants(text, rng, per_token=2):
+    """text with each minimal token inserted at a few token boundaries (one insertion per variant)"""
+    toks = _tok.findall(text)
+    out = []
+    for tiny in TINY:
+        for _ in range(per_token):
+            i = rng.randrange(len(toks) + 1) if toks else 0
+            out.append(''.join(toks[:i]) + tiny + ''.join(toks[i:]))
+    # and every comment of the text replaced by the empty comments
+    for i, t in enumerate(toks):
+        if t.startswith('/*') and t.endswith('*/'):
+            for tiny in ('/**/', '/***/'):
+                out.append(''.join(toks[:i]) + tiny + ''.join(toks[i + 1:]))
+    return out
+
+
+def grid_unit(kind, rows=36, per_row=3):
+    """same-kind statements at many (row, column) positions of one file, so that identities that do not
+    separate row from column (or drop one of them) collide: every statement differs in its text"""
+    stmt = {'if': lambda k: 'if (v%d > 0) f%d();' % (k, k), 'while': lambda k: 'while (v%d > 0) f%d();' % (k, k),
+            'return': lambda k: 'if (v%d > 0) return %d;' % (k, k), 'break': lambda k: 'while (c%d) break;' % k,
+            'continue': lambda k: 'while (c%d) continue;' % k, 'assert': lambda k: 'assert v%d > 0 : "m%d";' % (k, k),
+            'do': lambda k: 'do f%d(); while (v%d > 0);' % (k, k), 'for': lambda k: 'for (int i%d = 0; i%d < 2; i%d++) f%d();' % (k, k, k, k),
+            'block': lambda k: '{ f%d(); }' % k, 'call': lambda k: 'g.f%d(%d);' % (k, k), 'new': lambda k: 'new T%d(%d);' % (k, k),
+            'comment': lambda k: '/* c%d */' % k}[kind]
+    lines = ['class Grid_%s {' % kind, '  int m(int a) {']
+    truth = []
+    k = 0
+    for r in range(rows):
+        parts = []
+        indent = ' ' * (1 + (r * 7) % 11)
+        for j in range(per_row):
+            t = stmt(k)
+            ln = len(lines) + 1
+            if kind == 'if':
+                truth.append(dict(kind='if', line=ln, text=t, cond='(v%d > 0)' % k, then='f%d();' % k, els=None))
+            elif kind == 'while':
+                truth.append(dict(kind='while', line=ln, text=t, cond='(v%d > 0)' % k))
+            elif kind == 'return':
+                truth.append(dict(kind='return', line=ln, text='return %d;' % k, result='%d' % k))
+                truth.append(dict(kind='if', line=ln, text=t, cond='(v%d > 0)' % k, then='return %d;' % k, els=None))
+            elif kind == 'assert':
+                truth.append(dict(kind='assert', line=ln, text=t, expr='v%d > 0' % k, msg='"m%d"' % k))
+            elif kind == 'do':
+                truth.append(dict(kind='do', line=ln, text=t, cond='(v%d > 0)' % k))
+            elif kind == 'break':
+                truth.append(dict(kind='break', line=ln, text='break;', label=''))
+            elif kind == 'continue':
+                truth.append(dict(kind='continue', line=ln, text='continue;', label=''))
+            parts.append(t + ' ' * (1 + (r + j) % 3))
+            k += 1
+        lines.append(indent + ''.join(parts))
+    lines += ['    return 0;', '  }', '}', '']
+    return '\n'.join(lines), truth
+
+
+GRID_KINDS = ['if', 'while', 'return', 'break', 'continue', 'assert', 'do', 'for', 'block', 'call', 'new', 'comment']
+
+
 def mutate(text, rng, n=None):
     toks = _tok.findall(text)
     if not toks:
@@ -681,8 +758,10 @@ def mutate(text, rng, n=None):
         elif r < 0.7:
             j = rng.randrange(len(toks))
             toks[i], toks[j] = toks[j], toks[i]
+        elif r < 0.82:
+            toks[i] = rng.choice(['{', '}', '(', ')', ';', 'class', 'if', 'else', 'for', 'return', 'new', '"', "'", '/*', '*/', '+', '==', 'yield', 'assert', 'break', 'x', '.', ',', '@', 'é', '\x00'] + TINY)
         elif r < 0.9:
-            toks[i] = rng.choice(['{', '}', '(', ')', ';', 'class', 'if', 'else', 'for', 'return', 'new', '"', "'", '/*', '*/', '+', '==', 'yield', 'assert', 'break', 'x', '.', ',', '@', 'é', '\x00'])
+            toks[i] = shrink_token(toks[i], rng)
         else:
             k = rng.randrange(len(toks))
             toks = toks[:min(i, k)] + toks[max(i, k):]
